@@ -34,6 +34,7 @@ type Ctx struct {
 	seen    map[string]bool
 	nontriv int
 	evals   int
+	skipped int
 	Replay  string
 }
 
@@ -105,11 +106,18 @@ func Exec(line string) string {
 	case out := <-done:
 		return out
 	case <-time.After(caseTimeout):
+		timeouts++
 		return "timeout"
 	}
 }
 
-var caseTimeout = 20 * time.Second
+var caseTimeout = 10 * time.Second
+
+// timeouts counts cases whose goroutine was abandoned (it may still be spinning); after a
+// few of them the run is cut short: the cases written so far are enough to report.
+var timeouts int
+
+const maxTimeouts = 3
 
 // Case records one case: builds the line, runs the real code, writes line and output.
 func (c *Ctx) Case(kind, op, args string, nontrivial bool) string {
@@ -119,6 +127,10 @@ func (c *Ctx) Case(kind, op, args string, nontrivial bool) string {
 	}
 	if strings.ContainsAny(line, "\n\t") {
 		panic("case line contains separator")
+	}
+	if timeouts >= maxTimeouts {
+		c.skipped++
+		return "skipped"
 	}
 	expected := Exec(line)
 	fmt.Fprintf(c.w, "%s\t%s\t%s\n", kind, line, expected)
@@ -264,13 +276,16 @@ func main() {
 	c.w.Flush()
 	f.Close()
 	st := map[string]any{
-		"evaluations":         c.evals,
-		"distinct":            len(c.seen),
-		"distinct_nontrivial": c.nontriv,
-		"streams":             c.count,
-		"distribution":        c.dist,
-		"samples":             c.samples,
+		"evaluations":            c.evals,
+		"distinct":               len(c.seen),
+		"distinct_nontrivial":    c.nontriv,
+		"streams":                c.count,
+		"distribution":           c.dist,
+		"samples":                c.samples,
+		"timeouts":               timeouts,
+		"skipped_after_timeouts": c.skipped,
 	}
 	js, _ := json.MarshalIndent(st, "", " ")
 	_ = os.WriteFile(filepath.Join(*out, "stats.json"), js, 0o644)
+	os.Exit(0) // abandoned goroutines must not keep the process alive
 }
